@@ -177,6 +177,34 @@ def main(d):
         shutil.rmtree(tmp, ignore_errors=True)
 
 
+def main_many(d):
+    """n models with pairwise different datasets stored one after the other on a real directory, model `again` stored
+    a second time; every entry must come back with its own dataset."""
+    m1 = set_name(load_example_model('pheno'), 'm1')
+    ms = {}
+    for i in range(1, d['n'] + 1):
+        df = m1.dataset.copy()
+        df.loc[df.index[0], 'WGT'] = float(df['WGT'].iloc[0]) + i
+        ms[i] = set_name(m1.replace(dataset=df), f'm{i}')
+    tmp = tempfile.mkdtemp(prefix='c16many')
+    try:
+        for i in range(1, d['n'] + 1):
+            store(ld.LocalModelDirectoryDatabase(tmp + '/db'), ms[i])
+        store(ld.LocalModelDirectoryDatabase(tmp + '/db'), ms[d['again']])
+        db = ld.LocalModelDirectoryDatabase(tmp + '/db')
+        for i in range(1, d['n'] + 1):
+            try:
+                got = retrieve(db, ms[i])
+            except Exception as e:
+                return dict(ok=False, what=f'model {i} of {d["n"]} not retrievable: {type(e).__name__}: {e}'[:300])
+            if not complete(ms[i], got):
+                return dict(ok=False, what=f'model {i} of {d["n"]} retrieved with a dataset that is not its own')
+        return dict(ok=True, n=d['n'])
+    finally:
+        shutil.rmtree(tmp, ignore_errors=True)
+
+
 if __name__ == '__main__':
-    res = main(json.loads(sys.argv[1]))
+    _d = json.loads(sys.argv[1])
+    res = main_many(_d) if 'n' in _d else main(_d)
     print('REPLAY ' + json.dumps(res))
